@@ -659,7 +659,7 @@ func (v *Verifier) sortOf(t types.Type) string {
 		if st, ok := u.Underlying().(*types.Struct); ok {
 			name := "S_" + smtIdent(u.Obj().Name())
 			if u.Obj().Pkg() != nil {
-				name = "S_" + smtIdent(u.Obj().Pkg().Name()+"_"+u.Obj().Name())
+				name = "S_" + smtIdent(strings.ReplaceAll(structTypeName(u), ".", "_"))
 			}
 			if u.TypeArgs() != nil && u.TypeArgs().Len() > 0 {
 				name += "_g"
@@ -1034,7 +1034,10 @@ func fieldBase(ref *Term, idx int) *Term {
 func structTypeName(t types.Type) string {
 	if n, ok := t.(*types.Named); ok {
 		if n.Obj().Pkg() != nil {
-			return n.Obj().Pkg().Name() + "." + n.Obj().Name()
+			// the package path (not its name) keeps types of equally named packages apart
+			// (crypto/ecdsa vs signature/ecdsa, sync vs internal/sync)
+			pp := strings.TrimPrefix(n.Obj().Pkg().Path(), repoModule+"/")
+			return strings.ReplaceAll(pp, "/", "_") + "." + n.Obj().Name()
 		}
 		return n.Obj().Name()
 	}
